@@ -31,7 +31,7 @@ Proof.
   - simpl in *. apply andb_true_iff in Hl. destruct Hl as [Hc Hl]. rewrite Hc, (IH Hl). reflexivity.
 Qed.
 
-(* heights: non-empty, over the alphabet 0-9 . - *)
+(* heights: non-empty, over the alphabet 0-9 . - and the letters i n f a (inf, -inf, nan) *)
 Definition hok (h : string) : Prop := chars_of_string h <> [] /\ forallb is_hchar (chars_of_string h) = true.
 
 (* token streams the writer produces: an identifier is followed by ':', a ':' by a height,
